@@ -3,6 +3,7 @@
 import json, sys
 pid, wt = sys.argv[1], sys.argv[2]
 n = sys.argv[3] if len(sys.argv) > 3 else "2"
+focus = sys.argv[4] if len(sys.argv) > 4 else ""
 for l in open('/verif/properties.jsonl'):
     p = json.loads(l)
     if p['id'] == pid:
@@ -13,7 +14,7 @@ Here is a semantic property this library satisfies (the file/line anchors say wh
 
 {json.dumps(rec, indent=1)}
 
-TASK. Produce {n} independent, realistic REFACTORINGS of the library's NON-TEST source files, in the code that implements this property (the anchored functions and the helpers they use), each of which PRESERVES the property and every behaviour observable through the package's API that the property talks about — for every input, history and schedule, not only the common ones. They are the kind of clean-up commit a maintainer makes: 5-40 changed lines each, e.g. rename locals / unexported identifiers, extract or inline a helper, reorder independent statements, turn an if/else chain into a switch or early returns, replace a loop form, replace manual byte packing by encoding/binary or the reverse, change an allocation/buffer strategy without aliasing anything the caller can see, reorder unexported struct fields, add or fix comments, hoist a constant. Change {n} must restructure the control flow or data handling of the core mechanism (not only rename things). One of the changes MAY additionally reword the text of an error message or log line in a place where the property does not constrain the text (keep error identity/root causes, codes and classes unchanged). Do not change exported identifiers, signatures, constants' values, wire formats, error kinds, locking discipline or anything the property depends on. Be careful: a refactoring that subtly changes behaviour on a rare input is NOT acceptable here — think through boundaries (empty input, maximum sizes, error paths, reuse of objects, concurrency) and convince yourself it is equivalent.
+TASK. Produce {n} independent, realistic REFACTORINGS of the library's NON-TEST source files, in the code that implements this property (the anchored functions and the helpers they use), each of which PRESERVES the property and every behaviour observable through the package's API that the property talks about — for every input, history and schedule, not only the common ones. They are the kind of clean-up commit a maintainer makes: 5-40 changed lines each, e.g. rename locals / unexported identifiers, extract or inline a helper, reorder independent statements, turn an if/else chain into a switch or early returns, replace a loop form, replace manual byte packing by encoding/binary or the reverse, change an allocation/buffer strategy without aliasing anything the caller can see, reorder unexported struct fields, add or fix comments, hoist a constant. Change {n} must restructure the control flow or data handling of the core mechanism (not only rename things). One of the changes MAY additionally reword the text of an error message or log line in a place where the property does not constrain the text (keep error identity/root causes, codes and classes unchanged). {focus} Do not change exported identifiers, signatures, constants' values, wire formats, error kinds, locking discipline or anything the property depends on. Be careful: a refactoring that subtly changes behaviour on a rare input is NOT acceptable here — think through boundaries (empty input, maximum sizes, error paths, reuse of objects, concurrency) and convince yourself it is equivalent.
 
 For each change i = 1..{n} create {wt}/_ref/<i>/ containing:
   patch.diff — `git diff` against HEAD of the non-test source change only; must apply with `git apply` from the worktree root
